@@ -1,5 +1,7 @@
 mod alloc;
 mod c08;
+mod c14;
+mod c15;
 mod c17;
 mod entries;
 mod fuzz;
@@ -255,6 +257,31 @@ fn run(cmd: &str, args: &[String], seed: u64, rep: &mut Report) {
                 mutations: vec![],
             };
             settings::replay(&ctx, &read_ndjson(arg(&args, "--in").unwrap()), seed, &mut rep);
+        }
+        "common-view" => {
+            let ctx = fuzz::Ctx {
+                v: valve::Ctx {
+                    layouts: layout::LayoutSet::load(arg(&args, "--layouts").unwrap()),
+                    templates: template::Templates::load(arg(&args, "--templates").unwrap()),
+                    drift: drift_ids(),
+                },
+                mutations: vec![],
+            };
+            c15::replay(&ctx, &read_ndjson(arg(&args, "--in").unwrap()), seed, arg_u64(&args, "--reps", 50) as usize, &mut rep);
+        }
+        "dispatch" => {
+            let ctx = fuzz::Ctx {
+                v: valve::Ctx {
+                    layouts: layout::LayoutSet::load(arg(&args, "--layouts").unwrap()),
+                    templates: template::Templates::load(arg(&args, "--templates").unwrap()),
+                    drift: drift_ids(),
+                },
+                mutations: vec![],
+            };
+            let mut trace = Vec::new();
+            c14::replay(&ctx, seed, arg_u64(&args, "--reps", 8) as usize, &mut rep, &mut trace);
+            c14::eco_ports(&mut rep, &mut trace);
+            write_ndjson(arg(&args, "--out-trace").unwrap(), &trace);
         }
         "settings-real" => settings::real_sockets(&mut rep),
         "master" => master::replay(&read_ndjson(arg(&args, "--in").unwrap()), seed, arg_u64(&args, "--reps", 1) as usize, &mut rep),
